@@ -124,7 +124,7 @@ def build_go(dirpath, out, tags=(), pkg=".", timeout=900):
     return r
 
 
-def run_exe(exe, args=(), stdin=None, env_extra=None, timeout=120, seed=None, cwd=None, memlimit_kb=8 * 1024 * 1024):
+def run_exe(exe, args=(), stdin=None, env_extra=None, timeout=120, seed=None, cwd=None, memlimit_kb=8 * 1024 * 1024, stall=None):
     e = {"PATH": "/usr/bin:/bin", "HOME": "/root", "LD_LIBRARY_PATH": os.path.join(SHIM, "lib")}
     if seed is not None:
         e["LD_PRELOAD"] = os.path.join(SHIM, "lib", "librandseam.so")
@@ -132,6 +132,45 @@ def run_exe(exe, args=(), stdin=None, env_extra=None, timeout=120, seed=None, cw
     if env_extra:
         e.update(env_extra)
     pre = "ulimit -v %d; exec \"$0\" \"$@\"" % memlimit_kb
+    if stall:
+        # batch programs print a line per case: no new output for `stall` seconds is a hang (reported as a timeout) long before the overall limit
+        import threading
+        p = subprocess.Popen(["/bin/sh", "-c", pre, exe] + list(args), stdin=subprocess.PIPE if stdin is not None else subprocess.DEVNULL,
+                             stdout=subprocess.PIPE, stderr=subprocess.PIPE, env=e, cwd=cwd)
+        bufs = {"o": [], "e": []}
+        last = [time.time()]
+
+        def pump(f, key):
+            while True:
+                b = f.read1(65536) if hasattr(f, "read1") else f.read(65536)
+                if not b:
+                    break
+                bufs[key].append(b)
+                if key == "o":
+                    last[0] = time.time()
+        ts = [threading.Thread(target=pump, args=(p.stdout, "o"), daemon=True), threading.Thread(target=pump, args=(p.stderr, "e"), daemon=True)]
+        for t in ts:
+            t.start()
+        if stdin is not None:
+            try:
+                p.stdin.write(stdin); p.stdin.close()
+            except OSError:
+                pass
+        t0 = time.time()
+        rc = None
+        while True:
+            try:
+                rc = p.wait(timeout=0.5)
+                break
+            except subprocess.TimeoutExpired:
+                now = time.time()
+                if now - t0 > timeout or now - last[0] > stall:
+                    p.kill(); p.wait()
+                    rc = "timeout"
+                    break
+        for t in ts:
+            t.join(timeout=5)
+        return rc, b"".join(bufs["o"]).decode("utf-8", "replace"), b"".join(bufs["e"]).decode("utf-8", "replace")
     try:
         r = subprocess.run(["/bin/sh", "-c", pre, exe] + list(args), input=stdin, env=e, capture_output=True,
                            timeout=timeout, cwd=cwd)
